@@ -94,6 +94,49 @@ theorem subset_rows_cols {m' p' : Type*} [Fintype m'] [DecidableEq m'] [Fintype 
       Fx.submatrix r c - Fy.submatrix r id * Ry⁻¹ * Rx.submatrix id c :=
   Alg.implicit_submatrix Fx Fy Ry Rx r c
 
+/-! ### Requested inputs / functions that are independent of the rest of the request (round 3) -/
+
+variable {p₂ m₂ : Type*} [Fintype p₂] [DecidableEq p₂] [Fintype m₂] [DecidableEq m₂]
+
+/-- **A requested input on which no requested function depends.**  Split the requested variables in
+    `p` (any) and `p₂` (no function and no residual of the request has a partial derivative with respect
+    to them: the blocks are zero, `p₂` columns wide — as many as the VALUE of the input has components,
+    whatever index type that is).  Then the block of the total derivatives with respect to `p₂` is the
+    zero block with `p₂` columns, and the blocks with respect to the other inputs are exactly those of
+    the request without `p₂`: requesting an independent input changes nothing else. -/
+theorem independent_inputs_zero_block (Fx₁ : Matrix m p K) (Fy : Matrix m n K) (Ry : Matrix n n K)
+    (Rx₁ : Matrix n p K) :
+    fromCols Fx₁ (0 : Matrix m p₂ K) - Fy * Ry⁻¹ * fromCols Rx₁ (0 : Matrix n p₂ K) =
+      fromCols (Fx₁ - Fy * Ry⁻¹ * Rx₁) (0 : Matrix m p₂ K) := by
+  rw [Matrix.mul_fromCols, Matrix.mul_zero]
+  ext i (j | j) <;> simp
+
+/-- **A requested function that depends on no requested input** (neither directly nor through the
+    couplings of the request: its rows of `F_x` and `F_y` are zero): its rows of the total derivatives
+    are zero and the rows of the other functions are those of the request without it. -/
+theorem independent_functions_zero_rows (Fx₁ : Matrix m p K) (Fy₁ : Matrix m n K) (Ry : Matrix n n K)
+    (Rx : Matrix n p K) :
+    fromRows Fx₁ (0 : Matrix m₂ p K) - fromRows Fy₁ (0 : Matrix m₂ n K) * Ry⁻¹ * Rx =
+      fromRows (Fx₁ - Fy₁ * Ry⁻¹ * Rx) (0 : Matrix m₂ p K) := by
+  rw [Matrix.fromRows_mul, Matrix.fromRows_mul, Matrix.zero_mul, Matrix.zero_mul]
+  ext (i | i) j <;> simp
+
+/-- Instance: one function, one dependent input and an independent input given with THREE components
+    (whatever the length of its default value): the block w.r.t. it is the `1 × 3` zero block, the other
+    block is the one of the request without it (`2/7` for the system of the examples above). -/
+example (j : Fin 3) :
+    let Ry : Matrix (Fin 2) (Fin 2) ℚ := !![-1, 1/2; 1/4, -1]
+    let Rx : Matrix (Fin 2) (Fin 1) ℚ := !![1; 0]
+    let Fx : Matrix (Fin 1) (Fin 1) ℚ := !![0]
+    let Fy : Matrix (Fin 1) (Fin 2) ℚ := !![0, 1]
+    (fromCols Fx (0 : Matrix (Fin 1) (Fin 3) ℚ) - Fy * Ry⁻¹ * fromCols Rx (0 : Matrix (Fin 2) (Fin 3) ℚ))
+        0 (Sum.inr j) = 0 ∧
+      (fromCols Fx (0 : Matrix (Fin 1) (Fin 3) ℚ) - Fy * Ry⁻¹ * fromCols Rx (0 : Matrix (Fin 2) (Fin 3) ℚ))
+        0 (Sum.inl 0) = (Fx - Fy * Ry⁻¹ * Rx) 0 0 := by
+  intro Ry Rx Fx Fy
+  rw [independent_inputs_zero_block]
+  exact ⟨rfl, rfl⟩
+
 /-! ### Units: the result is equivariant under a change of variables -/
 
 /-- **Change of variables.**  With the functions in coordinates `F' = P F`, the design variables
